@@ -2,6 +2,7 @@ package v2
 
 import (
 	"errors"
+	"fmt"
 	"io"
 	"os"
 	"sync"
@@ -85,6 +86,12 @@ func NewFileWriterWithName(filePath string, maxBlockSize int, swampName string) 
 // If swampName is set, creates a V3 file with the name stored after the header.
 // Otherwise creates a V3 file with NameLength=0.
 func (fw *FileWriter) createNewFile() error {
+	// The name length is a 16-bit header field. A longer name would wrap around (65536 -> 0)
+	// while all of its bytes were still written after the header, so the data would start at
+	// the wrong offset and the swamp would come back nameless. Refuse instead of writing that.
+	if len(fw.swampName) > 0xFFFF {
+		return fmt.Errorf("swamp name is %d bytes long, the file format stores at most %d", len(fw.swampName), 0xFFFF)
+	}
 	file, err := os.Create(fw.filePath)
 	if err != nil {
 		return err
